@@ -16,6 +16,14 @@ Every theorem of Props/C16.lean and Props/C16Conn.lean is stated for ALL states,
 import PrimaiteModel.Props.C16Conn
 namespace Primaite.Session
 
+/-- what the rig's abstraction of the routers (`Medium` in harness/rigs/session.py) relies on: a router that is not ON drops every
+frame first thing; ARP frames are exempt from the ACL, so a DENY rule for ARP closes no direction (the rig checks both on real routers) -/
+theorem C16_gen_router_medium :
+    Gen.Session.routerOffDropsEveryFrame = true ∧
+    Gen.Session.routerSubjectToAcl =
+      ["frame.ip.protocol == 'udp' and frame.is_arp and isinstance(frame.payload, ARPPacket) -> return False", "return True"] := by
+  decide
+
 /-! ### the outcomes of a remote login over a path with two directions -/
 
 /-- **C16, transport (login).** A remote login of `x` towards `y` has exactly three outcomes:
@@ -314,14 +322,15 @@ theorem C16_command_request_dropped (n : Net) (x z : Nat) (c : Cmd) (h : canDeli
 
 /-- **C16, transport (command, answer).** For a command that arrived on a live session with a known connection, the state is that
 of the carried command executed on the target after the session's clock was set, and the answer is the carried command's answer
-*if the reply direction is open after the execution* — otherwise `failure`, although the command was executed (the client cannot
-tell a dropped answer from a refused command; `success` always means "executed and answered success"). -/
+*if the reply direction is open after the execution* (or the node commanded itself through its gateway: client and server are then
+one Terminal object and no answer frame is needed) — otherwise `failure`, although the command was executed (the client cannot tell
+a dropped answer from a refused command; `success` always means "executed and answered success"). -/
 theorem C16_command_answer (n : Net) (x z : Nat) (c : Cmd) (a b : Node) (cn : Conn) (arr : CmdArrives n x z a b cn)
     (hs : b.hasSession cn.id = true) (hc : b.hasConn cn.id = true) :
     (step n (.req x (.remoteCmd z c))).1 = (step (n.upd z (Node.touch cn.id n.time)) (.req z c)).1 ∧
     (step n (.req x (.remoteCmd z c))).2 =
-      if canDeliver (step (n.upd z (Node.touch cn.id n.time)) (.req z c)).1 z x then (step (n.upd z (Node.touch cn.id n.time)) (.req z c)).2
-      else .failure := by
+      if (x == z || canDeliver (step (n.upd z (Node.touch cn.id n.time)) (.req z c)).1 z x) = true
+      then (step (n.upd z (Node.touch cn.id n.time)) (.req z c)).2 else .failure := by
   simp only [step, execCmd]
   unfold opRemoteCmdK
   simp only [arr.src, arr.srcOn, arr.conn, arr.srcTerm, arr.path, arr.dst, hs, hc, Bool.not_true, Bool.false_eq_true, if_false, if_true]
